@@ -1,0 +1,33 @@
+//go:build verif
+
+// Verification hooks (build tag "verif"): exported access to the client's
+// test dial function and state. This file only adds code.
+
+package client
+
+import (
+	"net"
+
+	"github.com/energomonitor/bisquitt/util"
+)
+
+// VerifSetDial makes Dial use the given function instead of a UDP/DTLS dial.
+func (c *Client) VerifSetDial(dial func() (net.Conn, error)) {
+	c.mockupDialFunc = dial
+}
+
+// VerifState returns the client's state (read-only probe).
+func (c *Client) VerifState() util.ClientState {
+	return c.state.Get()
+}
+
+// VerifRegistered returns a copy of the client's registered topics (read-only probe).
+func (c *Client) VerifRegistered() map[string]uint16 {
+	c.registeredTopicsLock.RLock()
+	defer c.registeredTopicsLock.RUnlock()
+	res := map[string]uint16{}
+	for k, v := range c.registeredTopics {
+		res[k] = v
+	}
+	return res
+}
